@@ -16,13 +16,14 @@ import (
 func init() { Registry["C13"] = checkC13 }
 
 func checkC13(p *core.Prog, r *core.Report) {
-	r.Explanation = "Decides a stated domain of crash sites reachable from client input (connection goroutines have no recover(), checked as a fact): (R1) in every function of server/ and protocol/ that receives a text command's argument list ([]string parameter), every index args[c], args[v+c] and re-slice args[c:] is covered on its path by a length test of that list (len(args) lower bound from ==, <, <=, != tests in either polarity; v+c forms by a test of the same v against len(args)); a guard on a different expression of v does not count; (R2) every result code has an ERROR_MSG entry; (R3) the optional pointers LockCommand.Data, LockResultCommand.Data, LockManager.currentData and Lock.data are dereferenced (field access or method call) only on paths that tested them non-nil; (R4) constant indexes into client value frames (LockCommandData.Data, origin byte frames) are covered by a length test or by the frame reader's minimum length. Sites outside the domain (indices through struct fields, data-dependent offsets, loops with stride arithmetic) are counted as outside_domain and not claimed. NOT decided: integer overflow, huge allocations, channel/close misuse, type assertions, deadlock, stack exhaustion."
+	r.Explanation = "Decides a stated domain of crash sites reachable from client input (connection goroutines have no recover(), checked as a fact): (R1) in every function of server/ and protocol/ that receives a text command's argument list ([]string parameter), every index args[c], args[v+c] and re-slice args[c:] is covered on its path by a length test of that list (len(args) lower bound from ==, <, <=, != tests in either polarity; v+c forms by a test of the same v against len(args)); a guard on a different expression of v does not count; (R2) every result code has an ERROR_MSG entry; (R3) the optional pointers LockCommand.Data, LockResultCommand.Data, LockManager.currentData and Lock.data are dereferenced (field access or method call) only on paths that tested them non-nil; (R4) constant indexes into client value frames (LockCommandData.Data, origin byte frames) are covered by a length test or by the frame reader's minimum length. Sites outside the domain (indices through struct fields, data-dependent offsets, loops with stride arithmetic) are counted as outside_domain and not claimed. (R5) in the text parser and stream readers an index of the form v-c (c>0) is covered by a test v >= c on its path. NOT decided: integer overflow, huge allocations, channel/close misuse, type assertions, deadlock, stack exhaustion."
 	r.Assumptions = []string{"Go type checker and go/ssa are correct for /repo", "a handler dispatched through a command registry receives the parsed command with its name at args[0] (len(args) >= 1)", "a panic in any goroutine started for a connection kills the process (no recover in Server.handle: asserted)"}
 	c13NoRecover(p, r)
 	c13R1(p, r)
 	c14R5(p, r, "C13/R2")
 	c13R3(p, r)
 	c13R4(p, r)
+	c13R5(p, r)
 }
 
 // c13NoRecover asserts the premise that makes every panic fatal.
@@ -652,4 +653,59 @@ func nonNilValue(v ssa.Value, depth int) bool {
 		return any
 	}
 	return false
+}
+
+// R5: indexes of the form v - c in the byte-level parsers need v >= c.
+func c13R5(p *core.Prog, r *core.Report) {
+	const rule = "C13/R5"
+	r.Rule(rule, "in the text parser / stream readers every index v-c (c>0, v a cursor, not a length) is covered by a test establishing v >= c on the path", 2)
+	for _, fn := range append(p.FuncsIn("protocol"), p.FuncsIn("server")...) {
+		if fn.Blocks == nil {
+			continue
+		}
+		rn := recvName(fn)
+		if rn != "TextParser" && rn != "Stream" && rn != "StreamReaderBuffer" && rn != "MemBytesArrayStream" {
+			continue
+		}
+		ex := core.NewExplorer(p, core.Hooks{
+			Track: func(x *core.X, a core.Atom) bool { return isConstText(a.L) || isConstText(a.R) },
+			Instr: func(x *core.X) {
+				if !x.Top() {
+					return
+				}
+				site, ok := indexSiteOf(x.Ins)
+				if !ok || site.kind != "index" {
+					return
+				}
+				b, ok := site.idx.(*ssa.BinOp)
+				if !ok || b.Op != token.SUB {
+					return
+				}
+				c, ok := b.Y.(*ssa.Const)
+				if !ok || c.Int64() <= 0 {
+					return
+				}
+				v := core.Plain(x.Canon(b.X).S)
+				if strings.HasPrefix(v, "len(") {
+					return // last-element access: rests on a state-machine invariant, outside the domain
+				}
+				key := siteKey(p, x.Ins)
+				if x.St.Facts.LowerBound(v) >= c.Int64() {
+					r.Hold(rule, key, x.Pos(), fmt.Sprintf("%s >= %d tested", stable(v), c.Int64()))
+				} else {
+					r.Violate(rule, key, x.Pos(), fmt.Sprintf("index %s-%d without a test that %s >= %d on this path: a read boundary that leaves it at 0 indexes at -1 and crashes the server", stable(v), c.Int64(), stable(v), c.Int64()), x.St.Trace)
+				}
+			},
+		})
+		ex.NoHist = true
+		ex.Run(fn, nil)
+		if ex.Imprecise != "" {
+			r.Fail("C13/R5 %s: %s", core.FuncName(fn), ex.Imprecise)
+		}
+	}
+}
+
+func isConstText(s string) bool {
+	_, err := strconv.Atoi(s)
+	return err == nil
 }
